@@ -19,11 +19,38 @@ from hv import core
 
 # ----------------------------------------------------------------------------- item / key pools
 
-KINDS = ["str", "int", "tuple", "mixed"]
+KINDS = ["str", "int", "tuple", "mixed", "pyeq", "pyeq"]
+
+
+class _ReprItem(str):
+    """a str subclass with its own repr: equal (and hash-equal) to the plain string, serialised differently"""
+
+    def __repr__(self):
+        return f"S({str.__repr__(self)})"
+
+
+# Item palette of kind "pyeq": pairwise DISTINCT serialisations (repr), many of them EQUAL (and hash-equal) under
+# Python's ==: 1 / 1.0 / True / Decimal('1') / Decimal('1.0') / Decimal('1.00') / Fraction(1) / (1+0j),
+# 0 / 0.0 / False / -0.0 / Decimal('0'), (1,) / (1.0,) / (True,), (0,) / (0.0,) / (-0.0,), frozenset built in two orders
+# ({0, 8} / {8, 0}), 'a' / a str subclass with its own repr, 2 / 2.0, 10**20 / 1e20, (1,'a') / (1.0,'a'),
+# frozenset({1}) / ({1.0}) / ({True}); controls that are NOT equal although they look alike: 'a' / b'a', 1 / '1'.
+# The small ids are the most collision-rich (generators draw small ids most often).
+PAL = [1, 1.0, True, 0, 0.0, False, -0.0, decimal.Decimal("1"), (1,), (1.0,), decimal.Decimal("1.0"), (True,),
+       fractions.Fraction(1), complex(1, 0), decimal.Decimal("0"), (0,), (0.0,), (-0.0,), frozenset([0, 8]), frozenset([8, 0]),
+       "a", b"a", _ReprItem("a"), "1", 2, 2.0, 10**20, 1e20, (1, "a"), (1.0, "a"), decimal.Decimal("1.00"),
+       frozenset([1]), frozenset([1.0]), frozenset([True])]
+assert len({repr(v) for v in PAL}) == len(PAL)
+# ==-class of a palette id (dict identity: equal and hash-equal)
+PAL_CLS = [min(u for u in range(len(PAL)) if PAL[u] == PAL[v] and hash(PAL[u]) == hash(PAL[v])) for v in range(len(PAL))]
+assert all((PAL[u] == PAL[v]) == (PAL_CLS[u] == PAL_CLS[v]) for u in range(len(PAL)) for v in range(len(PAL)))
+assert len(set(PAL_CLS)) < len(PAL) // 2
 
 
 def item_of(kind: str, i: int):
-    """Python item for item id `i`; distinct ids give items that are distinct under `==`."""
+    """Python item for item id `i`.  For every kind but "pyeq" distinct ids give items that are distinct under `==`;
+    for "pyeq" distinct ids give distinct serialisations, ids < len(PAL) collide under == as listed in PAL_CLS."""
+    if kind == "pyeq":
+        return PAL[i] if 0 <= i < len(PAL) else f"pq-{i}"
     if kind == "str":
         return f"item-{i}"
     if kind == "int":
@@ -31,6 +58,20 @@ def item_of(kind: str, i: int):
     if kind == "tuple":
         return (i, f"t{i % 3}")
     return [f"m{i}", i * 31 + 1000003, (i, "z")][i % 3]
+
+
+def ident_id(fam_kind: str, item_kind: str, i: int) -> int:
+    """the id under which the MODEL (and the judge's true counts) sees item id `i`: which items a sketch treats as one.
+    Bloom / Count-Min / HyperLogLog hash the serialisation (repr) and a reservoir stores the objects themselves: every id is
+    its own item.  TopK keeps a dict keyed by the item: Python-equal spellings (1, 1.0, True) are ONE item."""
+    if item_kind == "pyeq" and fam_kind == "topk" and 0 <= i < len(PAL):
+        return PAL_CLS[i]
+    return i
+
+
+def spelling(v):
+    """identity of an object as a reservoir must preserve it: type and serialisation"""
+    return (type(v).__name__, repr(v))
 
 
 # Merkle keys: the model works on ranks, so the pool is sorted with Python's string order.
@@ -128,7 +169,9 @@ def _mk(family, cfg):
 
 
 def _hash_row(family, sk, cfg, item):
-    """the real hash values the sketch uses for `item` (same helper the sketch calls)"""
+    """the real hash values the sketch uses for `item` (same helper the sketch calls), asked of a FRESH sketch per item:
+    the table must be a function of the item alone, whatever the sketch remembers of earlier calls"""
+    sk = _mk(family, cfg)
     if family == "bloom":
         return [sk._hash(item, i) for i in range(cfg[1])]
     if family == "cms":
@@ -173,6 +216,14 @@ class C20(core.Property):
             "12 % with one differently configured register) — ≤40 add / merge / clear operations shaped as window aggregation (merge a window into an aggregate that "
             "may still be empty, then clear or keep filling the window), merge chains a→b→c with the early links changed afterwards, fan-in, or random (self-merge "
             "for the three mergeable kinds); every sketch is observed after every operation; "
+            "item kinds str / int / tuple / mixed (pairwise distinct under ==) and, one case in three, the Python-equality palette: 34 items with pairwise distinct "
+            "serialisations of which many are equal and hash-equal (1 / 1.0 / True / Decimal('1') / Decimal('1.0') / Decimal('1.00') / Fraction(1) / (1+0j), "
+            "0 / 0.0 / False / -0.0 / Decimal('0'), (1,) / (1.0,) / (True,), (0,) / (0.0,) / (-0.0,), frozenset({0, 8}) / frozenset({8, 0}), 'a' / str subclass with its own repr, "
+            "2 / 2.0, 10**20 / 1e20, frozenset({1}) / ({1.0}) / ({True}); controls 'a' / b'a', 1 / '1'), small ids drawn most often, used by every sketch family; "
+            "seq programs of Bloom / Count-Min / TopK run 60 % (palette) or 25 % (other kinds) in own-question mode: snapshots read the state only and membership / "
+            "frequency questions are explicit `look r x` operations — a prelude of questions to the fresh sketches (lookups before inserts), questions to a merge target about "
+            "what the source held, random questions, and at the end every register is asked about every item of its logical stream — so merged sketches have different "
+            "question histories; Merkle replica scripts (40 %) pass each key as a plain str, a str subclass inheriting repr or a str subclass with its own repr, changing from use to use; "
             "Merkle family: half the cases use the plain palette (16 values distinct under == and repr), half are replica scripts over the full palette — values equal under == but serialised "
             "differently (1 / 1.0 / True / Decimal(1), 0 / 0.0 / -0.0 / False, 1.5 / Fraction(3,2), 10**20 / 1e20, (1,2) / (1.0,2.0), b'b' / bytearray(b'b'), 'v' / str subclass with its own repr, "
             "[1] / [1.0] / [True], {'n':1} / {'n':1.0}), a str subclass inheriting repr, and mutable records (lists, dicts, bytearrays) that are changed IN PLACE (object obtained with get()) and "
@@ -181,6 +232,8 @@ class C20(core.Property):
             "a case is non-trivial when it has ≥2 accepted adds (sketches) or ≥1 differing key (Merkle) or ≥1 add and ≥1 merge (seq); distinct = distinct case content")
     trusted_base = [
         "hv/props/c20.py adapters (drive the real sketch objects, canonical transcript)",
+        "item identity is computed by the adapter from the palette objects themselves: serialisation (repr) for Bloom / Count-Min / HyperLogLog / reservoir, "
+        "the ==-and-hash class for TopK (ident_id); the hash table of an item is asked of a FRESH sketch per item (a sketch-internal memo cannot leak into the model's table)",
         "private attributes read for state equality: BloomFilter._bits, CountMinSketch._counters, HyperLogLog._registers "
         "(no public accessor exists); hash tables obtained from the sketches' own _hash helpers",
         "ReservoirSampler._rng replaced by a scripted generator (the draws are inputs of the model)",
@@ -189,17 +242,29 @@ class C20(core.Property):
         "Merkle values cross as serialisation ids (palette index of the first value with the same repr) and, for cases judged under Python equality, a table id -> ==-class computed by the adapter with == on the palette objects; "
         "the model's hash tables come from the module's own _hash_leaf / _hash_children applied to the logical maps (the real trees are not consulted for the model)",
         "t-digest doubles cross as order-preserving integer keys (okey); no float arithmetic on the Lean side",
+        "t-digest tie: after quantile() (which flushes) the adapter reads the private TDigest._centroids (mean, count) and the public min / max / item_count and ships them "
+        "as the digest the Lean quantile model walks over",
         "seq family: the reference sketch of a register (`w<i>` lines: a fresh sketch of the same configuration fed with the register's logical stream by add() only) "
         "is built by the adapter; the logical stream is recomputed on the Lean side (`logical`) for the one-sided bounds, the TopK / reservoir / t-digest clauses",
     ]
     assumptions = [
+        "what counts as 'the same item' is the sketch's own notion: Bloom / Count-Min / HyperLogLog hash repr(item), so 1, 1.0 and True are three items (add(1) does not make "
+        "contains(1.0) true — observation: under a uniform Python-== reading that is a false negative; not raised, the Merkle analogue is the registered finding); TopK keys a dict by the "
+        "item, so they are ONE item whose true count is the sum; a reservoir hands back the objects it was given (type and repr)",
+        "a `look` (contains / estimate / estimate_with_error) is judged against the register's logical stream at that moment and must change no observable of any register (frame clause)",
+        "Merkle, python-equality reading: a non-empty diff between maps that are identical serialisation by serialisation is merkle/diff/nonempty-but-identical (not covered by the registered "
+        "finding, which needs a value equal under == and serialised differently)",
         "reservoir clause read as: size = min(k, n) and every sampled element occurs in the stream (set reading; merge samples with replacement)",
         "Merkle 'the two maps are equal': judged as serialised identity (two values are the same iff repr() — what the tree hashes — is the same), the tree's own notion; under Python's == on dicts "
         "({k: 1} == {k: 1.0}) the code that exists reports a non-empty diff for equal maps (finding merkle/diff/nonempty-but-python-equal, fixes/C20-merkle-python-equal-values.known.md); "
         "cases marked eqmode=python are judged under that reading and are generated only when C20.PYEQ_CASES is on; NaN and values whose repr embeds an address are outside the value domain; "
         "a mutable value changed in place WITHOUT a following update(key, value) is a user error and is not generated (the harness never shares a mutable object between keys or trees)",
         "TopK.merge is not part of the property text and is not modelled (its item_count can exceed N: k=2, {a:1,b:2}.merge({c:5,a:1}) reports 10 for 9)",
-        "t-digest: no Lean model of the float centroid arithmetic; its two clauses are judged on the implementation's own outputs only",
+        "t-digest: the float centroid arithmetic (add / compress / merge) has no Lean model; the quantile walk has (HappyModel/C20/TDigest.lean, exact arithmetic over integer-keyed means) "
+        "and both clauses are proved for it over every well-formed digest; the implementation's outputs are judged directly (monotone, within min/max) and, on grids q = i/2^k (where q·N, the "
+        "half-weights and every comparison of the walk are exact in doubles, so code and model take the same branch; weights < 2^40), tied to the model: the dumped centroid list must be well "
+        "formed and every answer must lie in the bracket of the rule the model applies — equal to the centroid mean for `return centroid.mean`, between the two interpolated numbers otherwise "
+        "(the code clamps its float interpolation to exactly that bracket); q grids with qn = 100 are judged for order only",
         "HLL cardinality() (float estimator) is not compared; the merge law is on registers",
         "seq family: 'a merge result must not change when its inputs change afterwards' is judged as a frame clause on public observables — after every operation every "
         "sketch other than the operation's target (add/clear: the receiver; merge: the receiver, not the argument) must report exactly what it reported before "
@@ -332,9 +397,18 @@ class C20(core.Property):
                 else:
                     ops.append(["clear", rng.randrange(nreg)])
         ops = ops[:40]
-        case = {"family": "seq", "kind": kind, "item_kind": rng.choice(KINDS), "cfgs": cfgs, "regs": regs, "ops": ops}
+        item_kind = rng.choice(KINDS)
+        # "own" observation: snapshots read the state only; membership / frequency questions are explicit `look r x`
+        # operations, so every register has its OWN lookup history (lookups before inserts, merges between sketches that
+        # were asked different things, questions about an item that arrived through a merge only)
+        own = kind in ("bloom", "cms", "topk") and rng.random() < (0.6 if item_kind == "pyeq" else 0.25)
+        if own:
+            ops = self.with_looks(ops, nreg, item, rng)[:90]
+        case = {"family": "seq", "kind": kind, "item_kind": item_kind, "cfgs": cfgs, "regs": regs, "ops": ops}
         if kind == "tdigest":
             case["qn"] = rng.choice([4, 16, 64])
+        elif own:
+            case["probes"] = []
         else:
             used = sorted({op[2] for op in ops if op[0] == "add"})
             case["probes"] = used + [n_items + 50 + t for t in range(rng.choice([0, 1, 2]))]
@@ -344,6 +418,35 @@ class C20(core.Property):
             case["scripts"] = [[rng.choice([0, k - 1, k, k + 1, rng.randrange(1 << 16), rng.randrange(budget + 1), 63, 64])
                                 for _ in range(budget)] for _ in range(nreg)]
         return case
+
+    @staticmethod
+    def with_looks(ops, nreg, item, rng):
+        """interleave `look r x` operations: a prelude of questions on the fresh sketches, after a merge questions to the
+        target about what the source had, random questions in between, and at the end every register is asked about
+        every item of its logical stream"""
+        out, logical = [], [[] for _ in range(nreg)]
+        for r in range(nreg):
+            for _ in range(rng.choice([0, 1, 2, 3])):
+                out.append(["look", r, item()])
+        for op in ops:
+            out.append(op)
+            if op[0] == "add":
+                if op[3] > 0:
+                    logical[op[1]].append(op[2])
+            elif op[0] == "merge":
+                src = list(logical[op[2]])
+                logical[op[1]] = logical[op[1]] + src
+                if src and rng.random() < 0.7:
+                    for _ in range(rng.choice([1, 2])):
+                        out.append(["look", op[1], rng.choice(src)])
+            elif op[0] == "clear":
+                logical[op[1]] = []
+            if rng.random() < 0.15:
+                out.append(["look", rng.randrange(nreg), item()])
+        for r in range(nreg):
+            for x in sorted(set(logical[r]))[:8]:
+                out.append(["look", r, x])
+        return out
 
     @staticmethod
     def gen_stream(rng, n_items, tier, allow_neg=True):
@@ -597,6 +700,8 @@ class C20(core.Property):
         case = {"family": "merkle", "a": a0, "b": b0, "ops": ops}
         if self.PYEQ_CASES:
             case["eqmode"] = "python"
+        if rng.random() < 0.4:
+            case["kspell"] = rng.randrange(1000)
         return case
 
     def gen_tdigest(self, rng, tier):
@@ -624,7 +729,7 @@ class C20(core.Property):
             c = 1 if r < 0.7 else rng.choice([2, 3, 5, 17]) if r < 0.95 else rng.choice([0, 0, -1])
             vals.append([v, c])
         split = rng.choice([0, len(vals), rng.randint(0, len(vals))])
-        return {"family": "tdigest", "comp": comp, "vals": vals, "split": split, "qn": rng.choice([4, 64, 100]),
+        return {"family": "tdigest", "comp": comp, "vals": vals, "split": split, "qn": rng.choice([4, 16, 64, 64, 100]),
                 "early": rng.random() < 0.4}
 
     # ------------------------------------------------------------------ implementation
@@ -665,11 +770,17 @@ class C20(core.Property):
         back = {}
         qs = [i / case["qn"] for i in range(case["qn"] + 1)] if kind == "tdigest" else []
 
+        def mid(x):
+            return ident_id(kind, ik, x)
+
         def it(x):
             if kind == "tdigest":
                 return x
             v = item_of(ik, x)
-            back[v] = x
+            if kind == "reservoir":
+                back[spelling(v)] = x          # the sampler must hand back the objects it was given
+            else:
+                back[v] = mid(x)               # TopK: a dict key, Python-equal spellings are one item
             return v
 
         def show(r, s):
@@ -681,10 +792,10 @@ class C20(core.Property):
                 pq = []
                 for p in probes:
                     e = s.estimate_with_error(item_of(ik, p))
-                    pq.append(f"{p}:{1 if item_of(ik, p) in s else 0}:{e.count}:{e.error}")
+                    pq.append(f"{mid(p)}:{1 if item_of(ik, p) in s else 0}:{e.count}:{e.error}")
                 return f"n {s.item_count} thr {s.guaranteed_threshold()} maxerr {s.max_error()} top {top} | q {j(pq)}"
             if kind == "reservoir":
-                return f"n {s.item_count} sample {j(back[y] for y in s.sample())}"
+                return f"n {s.item_count} sample {j(back[spelling(y)] for y in s.sample())}"
             mn = "none" if s.min is None else okey(s.min)
             mx = "none" if s.max is None else okey(s.max)
             return f"n {s.item_count} min {mn} max {mx}"
@@ -706,13 +817,22 @@ class C20(core.Property):
                 for r in range(n):
                     if sk[r].item_count:
                         out.append(f"#q{r} {j(okey(sk[r].quantile(q)) for q in qs)}")
+                        out.append(f"#c{r} {j(f'{okey(c.mean)}:{c.count}' for c in sk[r]._centroids)}")
 
         out.append("s init")
         snap()
         for k, op in enumerate(case["ops"]):
-            out.append(f"s {k + 1} " + j(self._seq_op_tokens(kind, op)))
+            out.append(f"s {k + 1} " + j(self._seq_op_tokens(kind, op, ik)))
             try:
-                if op[0] == "add":
+                if op[0] == "look":
+                    # a question to one register; it must change nothing (judged by the frame clause)
+                    v, s_ = item_of(ik, op[2]), sk[op[1]]
+                    if kind == "topk":
+                        e = s_.estimate_with_error(v)
+                        out.append(f"l{op[1]} {mid(op[2])}:{1 if v in s_ else 0}:{e.count}:{e.error}")
+                    else:
+                        out.append(f"l{op[1]} {_query(kind, s_, v)}")
+                elif op[0] == "add":
                     sk[op[1]].add(it(op[2]), op[3])
                     logical[op[1]] = logical[op[1]] + [(op[2], op[3])]
                     refs[op[1]] = None
@@ -730,9 +850,11 @@ class C20(core.Property):
         return out
 
     @staticmethod
-    def _seq_op_tokens(kind, op):
+    def _seq_op_tokens(kind, op, ik="str"):
         if op[0] == "add" and kind == "tdigest":
             return ["add", op[1], okey(op[2]), op[3]]
+        if op[0] in ("add", "look"):
+            return op[:2] + [ident_id(kind, ik, op[2])] + op[3:]
         return op
 
     def model_postprocess(self, case, out):
@@ -790,7 +912,7 @@ class C20(core.Property):
         for op in case["ops"]:
             if op[0] == "add":
                 it = item_of(kind, op[1])
-                back[it] = op[1]
+                back[it] = ident_id("topk", kind, op[1])
                 try:
                     tk.add(it, op[2])
                 except ValueError:
@@ -803,7 +925,7 @@ class C20(core.Property):
                     it = item_of(kind, x)
                     e = tk.estimate_with_error(it)
                     assert e.count == tk.estimate(it)
-                    out.append(f"q {x} {1 if it in tk else 0} {e.count} {e.error}")
+                    out.append(f"q {ident_id('topk', kind, x)} {1 if it in tk else 0} {e.count} {e.error}")
         return out
 
     def impl_reservoir(self, case):
@@ -821,7 +943,7 @@ class C20(core.Property):
         out = []
         for i, (x, c) in enumerate(case["stream"]):
             it = item_of(kind, x)
-            back[it] = x
+            back[spelling(it)] = x
             try:
                 W.add(it, c)
             except ValueError:
@@ -833,7 +955,7 @@ class C20(core.Property):
 
         def show(name, s):
             assert len(s) == s.sample_size == len(s.sample())
-            out.append(f"{name} n {s.item_count} sample {j(back[y] for y in s.sample())}".rstrip())
+            out.append(f"{name} n {s.item_count} sample {j(back[spelling(y)] for y in s.sample())}".rstrip())
 
         show("W", W)
         show("A", A)
@@ -852,26 +974,37 @@ class C20(core.Property):
     def _merkle_replay(case, on_diff):
         from happysimulator.sketching.merkle_tree import MerkleTree
 
-        ta = MerkleTree.build({KEYS[k]: make_val(v) for k, v in case["a"]})
-        tb = MerkleTree.build({KEYS[k]: make_val(v) for k, v in case["b"]})
+        # key spellings ("kspell"): the same key arrives as a plain str, as a str subclass inheriting repr, or as a str
+        # subclass with its own repr — equal, hash-equal, same str(); which spelling is used changes from use to use
+        spell, uses = case.get("kspell"), [0]
+
+        def K(k):
+            if spell is None:
+                return KEYS[k]
+            uses[0] += 1
+            m = (spell * 31 + uses[0] * 17 + k) % 4
+            return KEYS[k] if m < 2 else (_PlainStr(KEYS[k]) if m == 2 else _ReprStr(KEYS[k]))
+
+        ta = MerkleTree.build({K(k): make_val(v) for k, v in case["a"]})
+        tb = MerkleTree.build({K(k): make_val(v) for k, v in case["b"]})
         out = []
         for op in case["ops"]:
             t = ta if len(op) > 1 and op[1] == "a" else tb
             if op[0] == "upd":
-                t.update(KEYS[op[2]], make_val(op[3]))
+                t.update(K(op[2]), make_val(op[3]))
             elif op[0] == "mupd":
                 # a record is changed and the tree is told about it: the stored object (as get() hands
                 # it out) is modified IN PLACE and published with update(key, same_object).  Falls back
                 # to a plain update when the key holds no mutable value of the target's type.
-                cur = t.get(KEYS[op[2]])
+                cur = t.get(K(op[2]))
                 target = make_val(op[3])
                 if isinstance(cur, MUTABLE) and type(cur) is type(target):
                     set_in_place(cur, target)
-                    t.update(KEYS[op[2]], cur)
+                    t.update(K(op[2]), cur)
                 else:
-                    t.update(KEYS[op[2]], target)
+                    t.update(K(op[2]), target)
             elif op[0] == "del":
-                out.append(f"del {1 if t.remove(KEYS[op[2]]) else 0}")
+                out.append(f"del {1 if t.remove(K(op[2])) else 0}")
             else:
                 out.append(on_diff(ta, tb))
         return out
@@ -932,9 +1065,17 @@ class C20(core.Property):
         if case.get("early") and A.item_count:
             A.quantile(0.5)
         A.merge(B)
+        qn = case["qn"]
+        tie = qn & (qn - 1) == 0       # q = i / 2^k: q * N and every comparison of the walk are exact in doubles
+        if tie:
+            out.append(f"tie {qn}")
         for name, t in (("Wq", W), ("Mq", A)):
             if t.item_count:
                 out.append(f"obs {name} {j(okey(t.quantile(q)) for q in qs)}")
+                if tie:
+                    # the digest quantile() walked over (flushed by the call above): private `_centroids`
+                    out += [f"cent {name[0]} {okey(c.mean)} {c.count}" for c in t._centroids]
+                    out.append(f"lohi {name[0]} {okey(t.min)} {okey(t.max)} {t.item_count}")
         return out
 
     # ------------------------------------------------------------------ model / judge
@@ -952,7 +1093,9 @@ class C20(core.Property):
                 body.append(f"probe {j(case['probes'])}")
             return body
         if fam == "topk":
-            return [f"cfg {case['k']}", f"probe {j(case['probes'])}"] + [j(op) for op in case["ops"]]
+            tid = lambda x: ident_id("topk", case["kind"], x)
+            return [f"cfg {case['k']}", f"probe {j(tid(p) for p in case['probes'])}"] + \
+                   [j(["add", tid(op[1]), op[2]] if op[0] == "add" else op) for op in case["ops"]]
         if fam == "merkle":
             # the Lean side works on serialisation ids (RID); an in-place change + publish is an `upd`
             def opl(op):
@@ -965,25 +1108,25 @@ class C20(core.Property):
             return [f"cfg {case['comp'][0]} {case['comp'][1]}"] + [f"add {okey(v)} {c}" for v, c in case["vals"]] + [f"split {case['split']}"]
         if fam == "seq":
             return [f"kind {case['kind']}"] + [f"cfg {i} {j(c)}" for i, c in enumerate(case["cfgs"])] + \
-                   [f"reg {j(case['regs'])}", f"probe {j(case.get('probes', []))}"]
+                   [f"reg {j(case['regs'])}", f"probe {j(ident_id(case['kind'], case['item_kind'], p) for p in case.get('probes', []))}"]
         raise core.InfraError(f"unknown family {fam}")
 
     def seq_model_body(self, case):
         kind = case["kind"]
         body = self.scenario_lines(case)
         if kind in MERGEABLE:
-            ids = sorted({op[2] for op in case["ops"] if op[0] == "add"} | set(case["probes"]))
+            ids = sorted({op[2] for op in case["ops"] if op[0] in ("add", "look")} | set(case["probes"]))
             for ci, cfg in enumerate(case["cfgs"]):
                 sk = _mk(kind, cfg)
                 body += [f"h {ci} {x} {j(_hash_row(kind, sk, cfg, item_of(case['item_kind'], x)))}" for x in ids]
         if kind == "reservoir":
             body += [f"script {r} {j(v)}" for r, v in enumerate(case["scripts"])]
-        return body + ["op " + j(self._seq_op_tokens(kind, op)) for op in case["ops"]]
+        return body + ["op " + j(self._seq_op_tokens(kind, op, case["item_kind"])) for op in case["ops"]]
 
     def seq_judge_body(self, case, impl_out):
         """scenario + after `init` / every `op` the implementation's snapshot of every register"""
         body = self.scenario_lines(case)
-        ops = ["init"] + ["op " + j(self._seq_op_tokens(case["kind"], op)) for op in case["ops"]]
+        ops = ["init"] + ["op " + j(self._seq_op_tokens(case["kind"], op, case["item_kind"])) for op in case["ops"]]
         k = -1
         for line in impl_out:
             if line.startswith("s "):
@@ -991,9 +1134,9 @@ class C20(core.Property):
                 if k >= len(ops):
                     return None
                 body.append(ops[k])
-            elif line.startswith(("r", "w")):
+            elif line.startswith(("r", "w", "l")):
                 body.append("obs " + line)
-            elif line.startswith("#q"):
+            elif line.startswith(("#q", "#c")):
                 body.append("obs " + line[1:])
         return body if k == len(ops) - 1 else None
 
@@ -1185,11 +1328,15 @@ THEOREMS = [
     "HappyModel.C20.bloom_program_registers_are_sketches",
     "HappyModel.C20.hll_program_registers_are_sketches",
     "HappyModel.C20.sketch_program_frame",
+    "HappyModel.C20.tdigest_quantile_monotone",
+    "HappyModel.C20.tdigest_quantile_within_min_max",
+    "HappyModel.C20.tdigest_tie_sound",
 ]
 C20.theorems = THEOREMS
 C20.partial_theorems = {
-    "tdigest_quantile_monotone": "not proved: no Lean model of TDigest (centroid compression uses sqrt/pi in floats); "
-                                 "the clause is judged by the Lean Spec (nondecreasing) on the implementation's own quantile outputs",
-    "tdigest_within_min_max": "not proved, same reason; judged by the Lean Spec (withinMinMax) against the min/max of the input stream",
+    "tdigest_centroid_arithmetic": "not modelled: add / _flush / _compress / merge build the centroid list with float arithmetic (asin, sqrt, weighted means); "
+                                   "tdigest_quantile_monotone / tdigest_quantile_within_min_max are proved for the quantile walk over EVERY well-formed centroid list; that the "
+                                   "real object's list is well formed (sorted means, positive weights summing to item_count, means within [min, max]) and that its float answers "
+                                   "follow the model's rule are checked per case by the judge (tdigest/tie/*) on the dumped _centroids, for dyadic q grids",
 }
 PROPERTY = C20()
